@@ -264,6 +264,22 @@ theorem cfgs_EF (nd : Bool) (m : Media) (idx : Nat) (views : List View) :
       | error e => intro ih; exact ih
       | ok r => intro _; trivial
 
+theorem fcfgs_EF (nd : Bool) (idx k : Nat) (sides : List (View × Media)) :
+    EF (attachFile.fcfgs nd idx k sides) := by
+  induction sides generalizing k with
+  | nil => simp [attachFile.fcfgs, EF]
+  | cons p vs ih =>
+    obtain ⟨v, sm⟩ := p
+    simp only [attachFile.fcfgs]
+    split
+    · rfl
+    · rfl
+    · have ih' := ih (k + 1)
+      revert ih'
+      cases attachFile.fcfgs nd idx (k + 1) vs with
+      | error e => intro ih; exact ih
+      | ok r => intro _; trivial
+
 theorem attachFile_EF (fs : HostFs) (nd : Bool) (arg : Bytes) (st : MainState) :
     EF (attachFile fs nd arg st) := by
   unfold attachFile
@@ -272,17 +288,21 @@ theorem attachFile_EF (fs : HostFs) (nd : Bool) (arg : Bytes) (st : MainState) :
   · split
     · rfl
     · rfl
-    · split <;>
-      · dsimp only
-        split
-        · rfl
-        · rfl
-        · rfl
+    · dsimp only
+      split
+      · rfl
+      · rfl
+      · rfl
+      · split
+        · next e he => exact EF_of_eq he (cfgs_EF _ _ _ _)
         · split
-          · next e he => exact EF_of_eq he (cfgs_EF _ _ _ _)
-          · split
-            · rfl
-            · trivial
+          · rfl
+          · trivial
+      · split
+        · next e he => exact EF_of_eq he (fcfgs_EF _ _ _ _)
+        · split
+          · rfl
+          · trivial
 
 theorem optLoop_EF (fs : HostFs) (nd : Bool) (opts : List Opt) (st : MainState) :
     EF (optLoop fs nd opts st) := by
